@@ -15,7 +15,7 @@ Driver for C08. Case lines (DESIGN.md §2.9):
   facts    = obs live useCompiled hasStatic <route?> <route?> tree treeCompiled <route?> <route?> versionEngine vcTree
              <version> <route?> <route?> sunset allowed noRoute <detected> <path>
   route?   = 0 | 1 <hid> <pattern>
-  prog     = E <status> <size> | Q | O <size> | T <status> <size> | B <status> <size> | X <size> | F <status> <size> | G <size>
+  prog     = E <status> <size> | Q | O <size> | T <status> <size> | B <status> <size> | X <size> | F <status> <size> | G <size> | L <status> <size>
   log      = <n> (S <live> | W | H <hid> <pattern> <version> | E <label> <wrapped>)^n
   recd     = 0 | 1 <status> <size>
 
@@ -57,6 +57,7 @@ def pProg : P Prog := do
   else if k == "X" then Prog.panics <$> nat
   else if k == "F" then (do let s ← nat; let n ← nat; pure (Prog.copy s n))
   else if k == "G" then Prog.copyOnly <$> nat
+  else if k == "L" then (do let s ← nat; let n ← nat; pure (Prog.flushed s n))
   else failure
 
 def pEv : P MEv := do
